@@ -5,7 +5,7 @@ import numpy as np, pandas as pd
 from core import Result
 import proto, gen, implutil
 
-THEOREMS = ['C05_ampcons', 'C05_ampcons_dir', 'C05_ampcons_dir_both', 'C05_flank_sequence', 'C05_ampcons_range', 'C05_ampcons_clamped', 'C05_empty_table', 'C05_percons', 'C05_ratio_range',
+THEOREMS = ['C05_ampcons', 'C05_ampcons_dir', 'C05_ampcons_dir_both', 'C05_flank_sequence', 'C05_ampcons_range', 'C05_ampcons_clamped', 'C05_empty_table', 'C05_percons', 'C05_percons_dir', 'C05_ratio_range',
             'C05_mono_steps', 'C05_mono_range', 'C05_rank', 'C05_rank_undefined', 'C05_rank_range', 'C05_rank_order', 'C05_routing']
 RULE = ("(a) synthetic tables: rise / decay voltages over small integers incl. 0 and negatives (NaN, -inf, clamp, ratios > 1), periods, volt_amp with ties, both "
         "centrings, directions both/next/last, n = 0..12; (b) tables from compute_features(burst_method='cycles') on generated signals (tie-rich quantised / clipped / "
@@ -116,7 +116,7 @@ def evaluate(ctx, cases):
         for dr in DIRS:
             reqs.append('ampcons.model %s %s %s %s' % (T, dr, r, d)); items.append(('ac_' + dr, _wrap(lambda: compute_amp_consistency(df, direction=dr)), 'corr'))
             reqs.append('ampcons.spec %s %s %s %s' % (T, dr, r, d)); items.append(('ac_spec_' + dr, _wrap(lambda: compute_amp_consistency(df, direction=dr)), 'judge'))
-            reqs.append('percons.model %s %s' % (dr, per)); items.append(('pc_' + dr, _wrap(lambda: compute_period_consistency(df, direction=dr)), 'corr'))
+            reqs.append('percons.model %s %s' % (dr, per)); items.append(('pc_' + dr, _wrap(lambda: compute_period_consistency(df, direction=dr)), 'both'))      # (C05_percons / C05_percons_dir: the transcription IS the two-pair / one-pair definition)
         reqs.append('ampfrac.model ' + va); items.append(('af', _wrap(lambda: compute_amp_fraction(df)), 'both'))
         if c['kind'] == 'signal':
             side = 'trough' if pc else 'peak'; cen = 'peak' if pc else 'trough'
